@@ -130,9 +130,13 @@ func extractHasVals(h *gripql.GraphStatement_Has) []string {
 				vals = []string{l}
 			}
 		case gripql.Condition_WITHIN:
-			v := val.([]interface{})
-			for _, x := range v {
-				vals = append(vals, x.(string))
+			// ids and labels are strings: only string members can ever match
+			if v, ok := val.([]interface{}); ok {
+				for _, x := range v {
+					if s, ok := x.(string); ok {
+						vals = append(vals, s)
+					}
+				}
 			}
 		default:
 			// do nothing
